@@ -51,7 +51,7 @@ package types
 // imported bridge exits, in order)). ppChunks is the ghost sequence of those hashes.
 //@ ghost var ppChunks map[int]Hash
 //@ func (c *Certificate) PPHashToSign (c)
-//@   props C10
+//@   props C10 C19
 //@   requires c != nil && forall(k, 0, len(c.ImportedBridgeExits), c.ImportedBridgeExits[k] != nil && c.ImportedBridgeExits[k].GlobalIndex != nil)
 //@   modifies ppChunks
 //@   choose ppChunks with forall(k, 0, len(c.ImportedBridgeExits), ppChunks[k] == keccak(catB(emptyB(), leB(giVal(c.ImportedBridgeExits[k].GlobalIndex.MainnetFlag, c.ImportedBridgeExits[k].GlobalIndex.RollupIndex, c.ImportedBridgeExits[k].GlobalIndex.LeafIndex)))))
@@ -104,7 +104,7 @@ package types
 // ‖ exit leaf value, in order. fepChunks is the ghost sequence of the chunks' byte strings.
 //@ ghost var fepChunks map[int]Bytes
 //@ func (c *Certificate) FEPHashToSign (c)
-//@   props C10
+//@   props C10 C19
 //@   requires c != nil
 //@   requires forall(k, 0, len(c.ImportedBridgeExits), c.ImportedBridgeExits[k] != nil && c.ImportedBridgeExits[k].BridgeExit != nil && c.ImportedBridgeExits[k].BridgeExit.TokenInfo != nil && c.ImportedBridgeExits[k].BridgeExit.Amount != nil && c.ImportedBridgeExits[k].GlobalIndex != nil && 0 <= bigval(c.ImportedBridgeExits[k].BridgeExit.Amount) && bigval(c.ImportedBridgeExits[k].BridgeExit.Amount) < 115792089237316195423570985008687907853269984665640564039457584007913129639936)
 //@   requires typeIs(c.AggchainData, *AggchainDataProof) ==> cast(c.AggchainData, *AggchainDataProof) != nil
